@@ -273,6 +273,41 @@ pub fn tier2(quick: bool) -> Vec<Program> {
             }
         }
     }
+    // a domain narrowed from a second source that is not a stored constraint: a second infd on
+    // the same variable, or == between two variables whose domains have the same bounds but
+    // different interiors (either orientation)
+    {
+        let holes: Vec<Dom> = vec![Dom::Sparse(vec![1, 3]), Dom::Sparse(vec![0, 1, 3]), Dom::Sparse(vec![-2, 2])];
+        let wides: Vec<Dom> = vec![Dom::Range(1, 3), Dom::Range(0, 3), Dom::Range(-2, 2), Dom::Sparse(vec![0, 2, 3])];
+        let extra: Vec<Option<G>> = vec![None, Some(G::Fd(FdKind::Lte, vec![x.clone(), z.clone()])), Some(G::Fd(FdKind::Diseq, vec![y.clone(), z.clone()]))];
+        for h in &holes {
+            for wd in &wides {
+                for e in &extra {
+                    // (a) two domains on x
+                    let mut a = vec![G::InFd(vec![x.clone()], h.clone()), G::InFd(vec![x.clone()], wd.clone()), G::InFd(vec![y.clone(), z.clone()], Dom::Range(0, 2))];
+                    // (b) x == y / y == x with different domains
+                    let mut b1 = vec![G::InFd(vec![x.clone()], h.clone()), G::InFd(vec![y.clone()], wd.clone()), G::InFd(vec![z.clone()], Dom::Range(0, 2)), G::Eq(x.clone(), y.clone())];
+                    let mut b2 = vec![G::InFd(vec![x.clone()], h.clone()), G::InFd(vec![y.clone()], wd.clone()), G::InFd(vec![z.clone()], Dom::Range(0, 2)), G::Eq(y.clone(), x.clone())];
+                    if let Some(g) = e {
+                        a.push(g.clone());
+                        b1.push(g.clone());
+                        b2.push(g.clone());
+                    }
+                    for stmts in [a, b1, b2] {
+                        for (pi, perm) in permutations(&stmts).into_iter().enumerate() {
+                            if stmts.len() >= 5 && pi % (if quick { 12 } else { 3 }) != 0 {
+                                continue;
+                            }
+                            if quick && stmts.len() == 4 && pi % 2 == 1 {
+                                continue;
+                            }
+                            out.push(Program { nq: 3, body: perm });
+                        }
+                    }
+                }
+            }
+        }
+    }
     // operands already bound when the constraint is posted (and the other way round)
     let binds: Vec<G> = vec![
         G::Eq(x.clone(), T::I(1)),
